@@ -79,6 +79,10 @@ def oracle_stepwise(res, case, sk, ops, tmp, keypath):
                     want = None
                     res.violate("C01:accepted-but-invalid", "an assignment was accepted although the field rejects the value", dict(case, at=n, op=op))
                 got = cfg[op["key"]]
+                known, exact = F.independent_normal(sf["field"], a["py"])
+                if known and not (type(got) is int and got == exact):
+                    res.violate("C01:readback-not-exact", "reading an integer field after an accepted assignment does not yield the whole number that was assigned",
+                                dict(case, at=n, op=op, got=F.enc_val(got), want=F.enc_val(exact)))
                 if want is not None and sf["field"]["k"] != "challenge" and not c05.same(got, want):
                     res.violate("C01:readback", "reading a field after an accepted assignment does not yield its normalised form",
                                 dict(case, at=n, op=op, got=F.enc_val(got), want=F.enc_val(want)))
@@ -262,6 +266,12 @@ def boundary_stream(ctx, res, n):
                 case = {"stream": "boundary", "field": f, "route": name, "value": F.enc_val(v)}
                 res.case(stable([f, name, F.enc_val(v)]) if outcome == "ok" else None, sample=case if done < 2 and name == "attr" else None,
                          kind="boundary:%s:%s:%s" % (f["k"], name, outcome))
+                known, exact = F.independent_normal(f, v)
+                if outcome == "ok" and known:
+                    hs = held()
+                    if not hs or not (type(hs[-1]) is int and hs[-1] == exact):
+                        res.violate("C01:readback-not-exact", "reading an integer field after an accepted assignment does not yield the whole number that was assigned",
+                                    dict(case, held=F.enc_val(hs[-1] if hs else None), want=F.enc_val(exact)))
                 for h in held():
                     if h is None:
                         continue
